@@ -365,12 +365,18 @@ def memo_census_rule(ctx, rule):
         names = {x.id for x in ast.walk(ret) if isinstance(x, ast.Name)} | {x.attr for x in ast.walk(ret) if isinstance(x, ast.Attribute)} if ret is not None else None
         scalar = names is not None and names <= {'str', 'int', 'bool', 'float', 'bytes', 'None', 'tuple', 'frozenset', 'Optional'} \
             and not any(isinstance(x, ast.Constant) and isinstance(x.value, str) for x in ast.walk(ret))
+        # ... i.e. whose values are (or contain) objects of the package's own classes: SoupSieve, SelectorList, ...
+        holds = sorted({r for x in (ast.walk(ret) if ret is not None else ()) if isinstance(x, (ast.Name, ast.Attribute))
+                        for r in [src.resolve_class_ref(src.mods[mn], x)] if r})
         rule.instance({'memo': full, 'reachable_from_compile': on_path, 'maxsize': maxsize, 'bounded': bounded, 'cleared_by_purge': is_cleared,
-                       'holds_scalars_only': scalar}, key=full)
+                       'holds_scalars_only': scalar, 'holds_package_objects': holds}, key=full)
         if not on_path or scalar:
             continue
         if names is None:
             rule.note(f'{full}: the memoised function has no return annotation - whether it holds compiled structure is undecided')
+            continue
+        if not holds:
+            rule.note(f'{full}: memoises values that are no objects of the package ({unparse(ret)}): not part of the pattern cache')
             continue
         rule.obligation(bounded and is_cleared)
         if maxsize == '?':
